@@ -1,2 +1,3 @@
 import Vore.Model.Basic
 import Vore.Model.Process
+import Vore.Props.C20
